@@ -1,3 +1,4 @@
+import RossModel.Lemmas.SerialEnd
 import RossModel.Lemmas.Transparent
 /-!
 # C13 — Each link is transparent to packet sequences under every polling schedule
